@@ -196,3 +196,28 @@ def spec_signature(spec: Dict) -> str:
         zero = sum(1 for c in spec["slots"] for s in c if s == 0)
         return "poly%s%s/t%d/z%d/%s" % (tuple(spec["shape"]), ",".join(spec["names"]), len(spec["exps"]), zero, spec.get("mode", "raw"))
     return "%s%s" % (kind, tuple(spec.get("shape", ())))
+
+
+def poly_from_model(mparr: numpy.ndarray, names: Sequence[str], concrete: bool):
+    """Build a real ndpoly (raw mode) holding exactly the model array ``mparr`` (used for operands whose
+    coefficients are *expressions* in the atoms, e.g. an exact multiple divisor*cofactor)."""
+    import numpoly
+
+    shape = tuple(mparr.shape)
+    items = M.flat_items(mparr)
+    monos = sorted({m for it in items for m in it.terms})
+    if not monos:
+        monos = [()]
+    rows = [[dict(m).get(n, 0) for n in names] for m in monos]
+    cols = [[it.coeff(m) for it in items] for m in monos]
+    if not concrete:
+        dt: Any = object
+        arrs = [oarray(c, shape) for c in cols]
+    else:
+        vals = [x.const_value() for c in cols for x in c]
+        dt = _native_dtype(vals)
+        arrs = [numpy.array([_native(x.const_value(), dt) for x in c], dtype=dt).reshape(shape) for c in cols]
+    p = numpoly.ndpoly(exponents=rows, shape=shape, names=tuple(names), dtype=dt)
+    for key, arr in zip(p.keys, arrs):
+        p.values[key] = arr
+    return p
